@@ -567,6 +567,24 @@ def b_id(I, v):
     return I.V.id_of(I, v)
 
 
+def b_super(I):
+    """zero-argument super() inside a method: resolves attributes in the MRO behind the defining class"""
+    fr = I.frame
+    if fr.cls is None or not hasattr(fr, "bound") or "self" not in fr.bound:
+        slf = None
+        for f in reversed(I.frames):
+            if getattr(f, "bound", None) and "self" in f.bound:
+                slf = f.bound["self"]
+                break
+        if slf is None and hasattr(I, "param_env") and I.param_env.has("self"):
+            slf = I.param_env.lookup("self")
+    else:
+        slf = fr.bound["self"]
+    if slf is None or fr.cls is None:
+        raise Unsupported("super() outside a method")
+    return Obj("super-proxy", {"self": slf, "after": fr.cls.qual})
+
+
 def b_callable(I, v):
     return isinstance(v, (FuncRef, Closure, ClassRef))
 
@@ -575,7 +593,7 @@ BUILTINS.update({
     "len": b_len, "zip": b_zip, "enumerate": b_enumerate, "reversed": b_reversed, "iter": b_iter, "next": b_next,
     "list": b_list, "tuple": b_tuple, "set": b_set, "dict": b_dict, "max": b_max, "min": b_min, "range": b_range,
     "bool": b_bool, "int": b_int, "str": b_str, "repr": b_repr, "sum": b_sum, "sorted": b_sorted,
-    "getattr": b_getattr, "print": b_print, "any": b_any, "all": b_all, "map": (lambda I, f, *its: Opaque("map")), "type": b_type, "id": b_id, "callable": b_callable,
+    "getattr": b_getattr, "print": b_print, "any": b_any, "all": b_all, "super": b_super, "map": (lambda I, f, *its: Opaque("map")), "type": b_type, "id": b_id, "callable": b_callable,
     "True": True, "False": False, "None": None, "Ellipsis": Ellipsis,
 })
 BUILTINS["open"] = FuncRef("open")
